@@ -21,7 +21,8 @@ RULE = ("Kernel level: Hypothesis draws series (9 classes, n 4..400) x gap patte
         "dims are the non-time dims followed by time. Non-trivial: not (no gaps and lambda in {10, 10^-0.5} and n=5); "
         "distinct by content hash. "
         " Added after the fourth seeded round: Float series carry valid cells a hair away from the nodata value (one ulp .. 0.5). "
-        " Added after the fifth seeded round: Accessor cases carry an unrelated nodata attribute; generic 'history' sub-check for whits.")
+        " Added after the fifth seeded round: Accessor cases carry an unrelated nodata attribute; generic 'history' sub-check for whits. "
+        " Added after the sixth seeded round: missing cells of float series / cubes stored as NaN or +-inf next to a finite nodata value (the kernel must hand its input buffer back unchanged).")
 ASSUME = ["LAPACK banded Cholesky as reference solver", "tie rule / fragility rule of DESIGN 2.5 / 2.7"]
 
 
@@ -30,7 +31,8 @@ def _oracle(what, out, y, valid, lam, p, rec=None):
     y = np.asarray(y, dtype=float)
     valid = np.asarray(valid, dtype=bool)
     if lam == 0.0 or valid.sum() < 2:
-        req(np.array_equal(np.asarray(out), y.astype("int16")),
+        fin = np.isfinite(y)  # what a NaN / inf cell is cast to is not defined; every finite cell must come back as it went in
+        req(np.array_equal(np.asarray(out)[fin], y[fin].astype("int16")),
             "%s: lambda=%r, %d valid cells must return the input unchanged: in %s out %s" % (what, lam, int(valid.sum()), fmt(y), fmt(out)),
             what.split(":")[0] + " passthrough")
         return None
@@ -56,6 +58,9 @@ def sub_kernel(case, rec=None):
     for i, d in case.get("near", []):
         # a VALID cell whose value is close to, but not equal to, the nodata value
         yy[i] = np.nextafter(nd, np.inf if d > 0 else -np.inf) if abs(d) == 1 else nd + d
+    for i, kind in case.get("nonfinite", []):
+        # a MISSING cell stored as NaN / +-inf instead of the nodata value (C02: such cells carry no weight either)
+        yy[i] = {"nan": np.nan, "+inf": np.inf, "-inf": -np.inf}[kind]
     lam = 0.0 if case.get("lam0") else 10.0 ** case["loglam"]
     p = case.get("p")
     out, _ = smooth.run_variant("pgu" if p is not None else "gu", yy, nd, {"lam": lam, "p": p})
@@ -74,6 +79,8 @@ def sub_accessor(case, rec=None):
     arr[~vm] = nd
     for k, t, d in case.get("near", []):
         arr[k, t] = nd + d  # valid float cell next to the nodata value (d is exact in float32 at this magnitude)
+    for k, t in case.get("nan_cells", []):
+        arr[k, t] = np.nan  # missing cell of a float cube stored as NaN although a finite nodata value is passed
     cube = arr.reshape(ny, nx, nt).astype(case["dtype"])
     da = xr.DataArray(cube, dims=("y", "x", "time"),
                       coords={"time": pd.date_range("2010-01-01", periods=nt, freq="10D"), "y": np.arange(ny), "x": np.arange(nx) * 2},
@@ -132,6 +139,11 @@ def kernel_case(draw, nmax):
         # float rasters: valid cells a hair away from the nodata value are ordinary observations (+-1 stands for one ulp)
         idx = draw(st.lists(st.sampled_from(vi), min_size=1, max_size=min(3, len(vi)), unique=True))
         case["near"] = [[i, draw(st.sampled_from([1, -1, 1e-9, -1e-9, 0.004, -0.01, 0.0625, 0.25, -0.5]))] for i in idx]
+    mi = [i for i in range(n) if not g["valid"][i]]
+    if mi and draw(st.integers(0, 3)) == 0:
+        # float rasters: some or all of the missing cells are stored as NaN / +-inf, next to an unrelated finite nodata value
+        some = draw(st.booleans())
+        case["nonfinite"] = [[i, draw(st.sampled_from(["nan", "nan", "+inf", "-inf"]))] for i in mi if not some or draw(st.booleans())]
     return case
 
 
@@ -165,6 +177,9 @@ def accessor_case(draw):
     if dtype != "int16" and cells and draw(st.integers(0, 3)) == 0:
         pick = draw(st.lists(st.sampled_from(cells), min_size=1, max_size=min(3, len(cells)), unique=True))
         case["near"] = [[k, t, draw(st.sampled_from([0.0625, -0.0625, 0.25, -0.5, 0.015625]))] for k, t in pick]
+    miss = [(k, t) for k in range(ny * nx) for t in range(nt) if not val[k][t]]
+    if dtype != "int16" and miss and draw(st.integers(0, 2)) == 0:
+        case["nan_cells"] = [[k, t] for k, t in miss if draw(st.booleans())]
     return case
 
 
@@ -182,7 +197,7 @@ def run(ctx):
             rec.discard("kernel", why)
         rec.case("kernel", case, nontrivial=(not _trivial_kernel(case)) and why is None,
                  cls=["pgu" if "p" in case else "gu", "gap:" + case["gcls"], "y:" + case["ycls"],
-                      "lambda=0" if case.get("lam0") else "lambda>0"] + (["near_nodata_valid_cell"] if case.get("near") else []))
+                      "lambda=0" if case.get("lam0") else "lambda>0"] + (["near_nodata_valid_cell"] if case.get("near") else []) + (["missing_as_nan_or_inf"] if case.get("nonfinite") else []))
 
     ctx.given("kernel", kernel_case(ctx.n(200, 400)), ctx.n(1200, 15000), fn=f_kernel)
 
@@ -192,7 +207,7 @@ def run(ctx):
             rec.discard("accessor", why)
         rec.case("accessor", case, nontrivial=True,
                  cls=["mode:" + case["mode"], "dtype:" + case["dtype"], "dims:" + "/".join(case["dims"]),
-                      "p" if "p" in case else "nop"] + (["near_nodata_valid_cell"] if case.get("near") else []) + (["attr_nodata"] if case.get("attr_nodata") is not None else []) + (["sg:-inf"] if case["mode"] == "sg" and "-Infinity" in [str(v) for v in case["sg"]] else []))
+                      "p" if "p" in case else "nop"] + (["near_nodata_valid_cell"] if case.get("near") else []) + (["missing_as_nan"] if case.get("nan_cells") else []) + (["attr_nodata"] if case.get("attr_nodata") is not None else []) + (["sg:-inf"] if case["mode"] == "sg" and "-Infinity" in [str(v) for v in case["sg"]] else []))
 
     ctx.given("accessor", accessor_case(), ctx.n(250, 3000), fn=f_acc)
 
